@@ -2,7 +2,7 @@ use core::cmp::Ordering;
 
 use dashu_base::{
     Approximation::{self, *},
-    BitTest, ConversionError, DivRem, FloatEncoding, PowerOfTwo, Sign, UnsignedAbs,
+    BitTest, ConversionError, DivRem, FloatEncoding, Sign, UnsignedAbs,
 };
 use dashu_int::{IBig, UBig};
 
@@ -162,42 +162,23 @@ impl_conversion_from_float!(f32);
 impl_conversion_from_float!(f64);
 
 macro_rules! impl_conversion_to_float {
-    ($t:ty [$lb:literal, $ub:literal]) => {
+    ($t:ty, $method:ident) => {
         impl TryFrom<RBig> for $t {
             type Error = ConversionError;
 
             /// Convert RBig to primitive floats. It returns [Ok] only if
             /// the conversion can be done losslessly
             fn try_from(value: RBig) -> Result<Self, Self::Error> {
-                if value.0.numerator.is_zero() {
-                    Ok(0.)
-                } else if value.0.denominator.is_power_of_two() {
-                    // conversion is exact only if the denominator is a power of two
-                    let num_bits = value.0.numerator.bit_len();
-                    let den_bits = value.0.denominator.trailing_zeros().unwrap();
-                    let top_bit = num_bits as isize - den_bits as isize;
-                    if top_bit > $ub {
-                        // see to_f32::encode for explanation of the bounds
-                        Err(ConversionError::OutOfBounds)
-                    } else if top_bit < $lb {
-                        Err(ConversionError::LossOfPrecision)
-                    } else {
-                        match <$t>::encode(
-                            value.0.numerator.try_into().unwrap(),
-                            -(den_bits as i16),
-                        ) {
-                            Exact(v) => Ok(v),
-                            Inexact(v, _) => {
-                                if v.is_infinite() {
-                                    Err(ConversionError::OutOfBounds)
-                                } else {
-                                    Err(ConversionError::LossOfPrecision)
-                                }
-                            }
+                // the conversion succeeds only if the correctly rounded conversion is exact
+                match value.0.$method() {
+                    Exact(v) => Ok(v),
+                    Inexact(v, _) => {
+                        if v.is_infinite() {
+                            Err(ConversionError::OutOfBounds)
+                        } else {
+                            Err(ConversionError::LossOfPrecision)
                         }
                     }
-                } else {
-                    Err(ConversionError::LossOfPrecision)
                 }
             }
         }
@@ -213,8 +194,8 @@ macro_rules! impl_conversion_to_float {
         }
     };
 }
-impl_conversion_to_float!(f32 [-149, 128]); // see f32::encode for explanation of the bounds
-impl_conversion_to_float!(f64 [-1074, 1024]); // see f32::encode for explanation of the bounds
+impl_conversion_to_float!(f32, to_f32);
+impl_conversion_to_float!(f64, to_f64);
 
 impl Repr {
     /// Convert the rational number to [f32] without guaranteed correct rounding.
